@@ -127,6 +127,8 @@ mut('m15c_revert_paren_fix', ['C09'], MS, '''            let mut ty: &syn::Type 
                 ty = &p.elem;
             }
             quote! { #ty }''', '''            quote! { #ty }''', 'revert of fix D8 (sync macro)')
+mut('m15d_revert_turbofish_fix', ['C09'], MA, '''            .replace(' ', "")
+            .replace("::<", "<");''', '''            .replace(' ', "");''', 'revert of fix D9 (async macro)')
 mut('m09c_vec_buffer_elem_size', ['C05'], ME, 'let buffer = self.capacity() * size_of::<T>();', 'let buffer = self.capacity() * size_of::<usize>();', 'buffer counted in words, not in elements')
 mut('m09d_option_double_counts_inline', ['C05'], ME, '.map_or(0, |val| val.estimate_memory() - size_of_val(val))', '.map_or(0, |val| val.estimate_memory())', 'payload inline size counted twice')
 mut('m09e_result_err_arm', ['C05'], ME, 'Err(err) => err.estimate_memory() - size_of_val(err),', 'Err(_) => 0,', 'heap owned by the Err payload ignored')
